@@ -401,8 +401,11 @@ def canon_lxml(e):
 RE_INDENT = re.compile(r'^(\n *)*$')
 
 
-def compare(model, parsed, path='/'):
-    """First difference between the model Node and a canonical parsed element, or None."""
+def compare(model, parsed, path='/', locked=False):
+    """First difference between the model Node and a canonical parsed element, or None.
+    Indentation ("\n" + blanks where nothing was written) is forgiven only while no text has been written into this element
+    or an enclosing one earlier in document order (locked): after that, every character between the tags is text content of
+    the mixed-content ancestor and must be exactly what was written."""
     name, attrs, segs = parsed
     here = path + model.name
     if name != model.name:
@@ -420,10 +423,13 @@ def compare(model, parsed, path='/'):
         return '%s: %d children where %d were written' % (here, len(segs) // 2, len(msegs) // 2)
     for i, (m, p) in enumerate(zip(msegs, segs)):
         if i % 2 == 0:
-            if m != p and not (m == '' and RE_INDENT.match(p)):
-                return '%s: text segment %d recovered as %r, written %r' % (here, i // 2, p, m)
+            if m != p and not (m == '' and not locked and RE_INDENT.match(p)):
+                return '%s: text segment %d recovered as %r, written %r%s' % (
+                    here, i // 2, p, m, ' (inside mixed content: text was written earlier into this or an enclosing element)' if locked and m == '' else '')
+            if m != '':
+                locked = True
         else:
-            d = compare(m, p, here + '/')
+            d = compare(m, p, here + '/', locked)
             if d:
                 return d
     return None
